@@ -34,7 +34,7 @@ pub fn timed(s: &mut Session, op: &str) -> String {
     r
 }
 
-fn ss_udp_case(s: &mut Session, rng: &mut Rng, cipher: &'static str, want_user: bool, big: bool) {
+pub fn ss_udp_case(s: &mut Session, rng: &mut Rng, cipher: &'static str, want_user: bool, big: bool) {
     let cfg = random_cfg(rng, cipher, want_user);
     s.begin_case(&format!("ss-udp:{}:{}", cipher, if cfg.with_user { "eih" } else { "psk" }));
     let key = format!("ss-udp:{}", cipher);
